@@ -84,7 +84,7 @@ def generate(rng, n, tier):
         yield c
 
 
-FIELDS = ("pop", "popE", "bestX", "bestE", "evals", "gens", "ehist", "shist", "emx", "emy", "msg", "ncalls", "maxiter", "maxfun")
+FIELDS = ("pop", "popE", "bestX", "bestE", "evals", "gens", "ehist", "shist", "emx", "emy", "msg", "ncalls", "maxiter", "maxfun", "mon_shape")
 
 
 def view(s):
